@@ -200,6 +200,43 @@ def c06(seed, tier):
             if got != want:
                 mism.append({"rule": name, "code_point": c, "implementation_ends": got, "B1_says": want,
                              "after": "importing every bundled grammar module"})
+    # "as seen from any grammar", user side: grammars that import the definitions of core rules under names of their OWN
+    # (the documented imported_rules mechanism) and extend their own rules with "=/" must leave the core rules alone.
+    # (Names that shadow a core name, and flags on imported rules, are the known findings of C10 and are not used here.)
+    from abnf.grammars.misc import load_grammar_rulelist, load_grammar_rules
+    imports = [("name-start", "ALPHA"), ("hx", "HEXDIG"), ("blank", "WSP"), ("bin", "BIT"), ("ctl2", "CTL"), ("dig", "DIGIT"),
+               ("fold", "LWSP"), ("any", "OCTET"), ("vis", "VCHAR"), ("nl", "CRLF"), ("c7", "CHAR"), ("q", "DQUOTE")]
+
+    def _u1():
+        class U1(P.Rule):
+            grammar = ['ident = name-start *( name-start / DIGIT )', 'own = "a" / "b"']
+        return U1
+
+    def _u2():
+        class U2(P.Rule):
+            grammar = 'ident = name-start *( name-start / dig )\nline = *( vis / blank ) nl\n'
+        return U2
+    U1 = load_grammar_rules([(ln, P.Rule(core)) for ln, core in imports])(_u1())
+    U2 = load_grammar_rulelist([(ln, P.Rule(core)) for ln, core in imports])(_u2())
+    extra_chars = ['"_"', '"g"', '"x"', '"2"', '%x80', '"!"', '%x0B', '%x100', '%xA0', '%x0A', '%x80-FF', '"q"']
+    for U in (U1, U2):
+        for (ln, _), lit in zip(imports, extra_chars):
+            U.create(f"{ln} =/ {lit}")
+        U.create('own2 = "a"')
+        U.create('own2 =/ "c"')
+    for name, ivs in classes.items():
+        r0 = P.Rule(name)
+        for c in after_pts:
+            try:
+                got = [m.start for m in r0.lparse(chr(c), 0)]
+            except P.ParseError:
+                got = []
+            want = [1] if any(a <= c <= b for a, b in ivs) else []
+            n_eval += 1
+            if got != want:
+                mism.append({"rule": name, "code_point": c, "implementation_ends": got, "B1_says": want,
+                             "after": "two user grammars imported the core definitions under their own names and extended "
+                                      "those rules with =/ (" + ", ".join(f"{a} =/ {b}" for (a, _), b in zip(imports, extra_chars)) + ")"})
     # CRLF / LWSP / also every core rule on short strings vs the engine model
     alpha = [" ", "\t", "\r", "\n", "x"]
     L = 6 if tier == "thorough" else 5
